@@ -593,6 +593,14 @@ def do_AlternatingSectorsChain(ctx, rng, w, bad, call):
             ctx.cat("weights:default")
             if set(int(g) for g in gs) != gs_expected:
                 bad("ground-states-wrong", "ground states of to_%s(pbc=%s): %r" % (form, pbc, [bits(int(g), N, True) for g in gs[:4]]))
+            # the stated problem: bond q (between spins q and q+1, the closing bond N-1 -> 0 under pbc) has the strength of its
+            # sector, max_strength for even q // chain_length and min_strength for odd ones; cost = -sum of satisfied bonds
+            bonds = list(range(N - 1)) + ([N - 1] if (pbc and N > 1) else [])
+            want_e = -sum((mn if (q // cl) % 2 else mx) for q in bonds)
+            if N == 2 and pbc:
+                want_e = None          # (the closing bond coincides with bond 0: the two readings of the documentation differ)
+            if want_e is not None and abs(m - want_e) > 1e-9:
+                bad("ground-energy-wrong:default", "ground energy of to_%s(pbc=%s) is %r; the sector rule gives %r" % (form, pbc, m, want_e))
     for i in range(1 << N):
         z = bits(i, N, True)
         zb = bits(i, N, False)
